@@ -505,6 +505,10 @@ func (s *MemoryBackend) ReadUserTuple(ctx context.Context, store string, filter 
 
 	for _, t := range s.tuples[store] {
 		if match(t, tupleUtils.NewTupleKey(filter.Object, filter.Relation, filter.User)) {
+			// The key must match exactly: match() alone also accepts a type-only object ("doc:") or user ("user:").
+			if tupleUtils.BuildObject(t.ObjectType, t.ObjectID) != filter.Object || t.Relation != filter.Relation || t.User != filter.User {
+				continue
+			}
 			if len(filter.Conditions) > 0 && !slices.Contains(filter.Conditions, t.ConditionName) {
 				continue
 			}
